@@ -22,6 +22,9 @@ func init() {
 }
 
 func checkC20(c *Ctx) {
+	// errcheck-style baseline: a newly discarded error in the package is a dropped protocol/validation step
+	c.checkErrorDiscipline("errors.no-new-dropped-error", "tools/trim", map[string]string{
+	})
 	f := c.fn("cmd/cue/cmd", "runTrim")
 	g := c.graph(f)
 	info := f.Info()
